@@ -61,3 +61,48 @@ Proof.
   - cbn. unfold release. cbn. rewrite lookup_insert. reflexivity.
   - cbn. unfold add, upd. rewrite !decide_True by done. done.
 Qed.
+
+(* ---------- the known finding copyto-destination-uncounted ---------- *)
+(* CopyTo's destination store is created without the source's callbacks: dstColl.SetItem(i) makes a node of the
+   destination own item i, but the application's counter does not move (ItemAddRef of the destination is not reported). *)
+Inductive event'' :=
+| Ev2 (e : event)
+| EvShareUncounted (n : node) (i : item).   (* post: owner n := i, counter untouched *)
+
+Definition step'' (s : state) (e : event'') : option state :=
+  match e with
+  | Ev2 e => step s e
+  | EvShareUncounted n i =>
+    match owner s !! n with
+    | None => Some (mkState (cnt s) (<[n:=i]> (owner s)) (out s))
+    | Some _ => None
+    end
+  end.
+
+Inductive reachable'' : state → Prop :=
+| reach_init'' : reachable'' init
+| reach_step'' s e s' : reachable'' s → step'' s e = Some s' → reachable'' s'.
+
+(* load an item into node 1 of the source, share it uncounted with node 2 of the destination, let the source's visit
+   leave node 1 (eviction): node 2 still caches the item, its count is zero *)
+Theorem copyto_uncounted_refuted :
+  ¬ (∀ s n i, reachable'' s → owner s !! n = Some i → 1 ≤ cnt s i).
+Proof.
+  intros H.
+  set (s1 := mkState (upd (cnt init) 1%positive 1) (<[1%positive:=1%positive]> (owner init)) (out init)).
+  assert (E1 : step'' init (Ev2 (EvLoad 1%positive 1%positive)) = Some s1).
+  { cbn. replace (owner init !! 1%positive) with (@None item) by done.
+    rewrite decide_True by apply fresh_init. done. }
+  set (s2 := mkState (cnt s1) (<[2%positive:=1%positive]> (owner s1)) (out s1)).
+  assert (E2 : step'' s1 (EvShareUncounted 2%positive 1%positive) = Some s2).
+  { cbn. rewrite lookup_insert_ne by done. rewrite lookup_empty. done. }
+  assert (E3 : step'' s2 (Ev2 (EvEvict 1%positive)) = Some (release s2 1%positive)) by done.
+  assert (R : reachable'' (release s2 1%positive)).
+  { eapply reach_step''; [|exact E3]. eapply reach_step''; [|exact E2]. eapply reach_step''; [apply reach_init''|exact E1]. }
+  specialize (H (release s2 1%positive) 2%positive 1%positive R).
+  assert (Ho : owner (release s2 1%positive) !! 2%positive = Some 1%positive).
+  { unfold release. cbn. rewrite lookup_insert_ne by done. rewrite lookup_insert. cbn.
+    rewrite lookup_delete_ne by done. apply lookup_insert. }
+  specialize (H Ho). revert H. unfold release. cbn.
+  rewrite lookup_insert_ne by done. rewrite lookup_insert. cbn. unfold add, upd. rewrite !decide_True by done. lia.
+Qed.
